@@ -526,11 +526,14 @@ impl RunConfig {
                 // holds a stream it has accepted but not yet counted.
                 #[cfg(feature = "graceful-shutdown")]
                 let listening = shutdown::ConnectionGuard::new(&shutdown_manager);
+                // Bind and listen here, not in the spawned task: every port has to be ours before
+                // `ctl::listen` (below) tells the previous instance to close its listeners.
+                let listener = listener();
                 let future = async move {
                     // declared first: dropped after the listener inside `accept` is closed
                     #[cfg(feature = "graceful-shutdown")]
                     let _listening = listening;
-                    accept(listener(), descriptor, &shutdown_manager, true)
+                    accept(listener, descriptor, &shutdown_manager, true)
                         .await
                         .expect("Failed to accept message!");
                     #[cfg(feature = "verif-hooks")]
